@@ -46,6 +46,9 @@ type c16Case struct {
 	// FakeType: (blob paths) every event inside the blobs declares a harmless event_type (workflow execution signaled)
 	// whatever its attributes are - a crafted blob: the remote side controls these bytes
 	FakeType bool `json:"fake_type,omitempty"`
+	// NearMiss: the forbidden name is a near miss of an allowed one: 1 = other letter case, 2 = trailing blank,
+	// 3 = leading blank (namespace names are exact strings)
+	NearMiss int `json:"near_miss,omitempty"`
 }
 
 // c16PrependGarbage puts an undecodable blob in front of every repeated event-blob field that holds something.
@@ -118,6 +121,14 @@ func c16Run(c c16Case) error {
 	allowedName, forbiddenName := c16AllowedLocal, c16ForbiddenLocal
 	if c.Translation && !c.Bypass {
 		allowedName, forbiddenName = c16AllowedRemote, c16ForbiddenRemote
+	}
+	switch c.NearMiss {
+	case 1:
+		forbiddenName = "Allowed-NS"
+	case 2:
+		forbiddenName = c16AllowedLocal + " "
+	case 3:
+		forbiddenName = " " + c16AllowedLocal
 	}
 	req := vfshared.NewMessage(m.In)
 	anyForbidden := false
@@ -385,6 +396,16 @@ func TestVF_C16_Paths(t *testing.T) {
 							}
 							st.Case(vfshared.Fingerprint(cg), true, "forbidden_behind_an_uninspectable_batch")
 						}
+						if forbidden && !companion {
+							for nm := 1; nm <= 3; nm++ {
+								cm := c
+								cm.NearMiss = nm
+								if err := c16Run(cm); err != nil {
+									c16Fail(t, st, part, cm, err)
+								}
+								st.Case(vfshared.Fingerprint(cm), true, "forbidden_name_is_a_near_miss_of_an_allowed_one")
+							}
+						}
 						if viaBlob {
 							cf := c
 							cf.FakeType = true
@@ -482,6 +503,9 @@ func TestVF_C16_Random(t *testing.T) {
 		c.Repairable = rapid.IntRange(0, 3).Draw(rt, "repairable") == 0
 		c.IntraMarker = rapid.IntRange(0, 3).Draw(rt, "intra") == 0
 		c.FakeType = rapid.IntRange(0, 4).Draw(rt, "fakeType") == 0
+		if rapid.IntRange(0, 3).Draw(rt, "nearMiss") == 0 {
+			c.NearMiss = rapid.IntRange(1, 3).Draw(rt, "nearMissKind")
+		}
 		// merging several paths that share a oneof would let the later branch win and drop the earlier leaf
 		if err := c16Run(c); err != nil {
 			c16Fail(rt, st, part, c, err)
